@@ -18,8 +18,13 @@ def plan(ctx):
                               desc=f"{fn} on a Decimal never converts it to binary float"))
     for op in ('+', '-', '*', '/', '==', '<', '>=', '!='):
         obs.append(Obligation(f"arithmetic.exact.{op}", "xh", "c08", "arithmetic_exact", param={"op": op}, timeout=T * 2,
-                              bounds="12 x 12 literal pairs (incl. 29-digit, 2**53+1, 1e-30), optional unary minus: finite domain, indices symbolic",
+                              bounds="18 x 18 literal pairs (incl. 29-digit, 2**53+1, 1e-30, exact half-even ties), optional unary minus: finite domain, indices symbolic",
                               desc=f"real eval of 'a {op} b' vs exact rational arithmetic rounded half-even to 28 digits"))
+    for o1 in ('+', '-', '*', '/'):
+        for o2 in ('+', '-', '*', '/'):
+            obs.append(Obligation(f"arithmetic.chain.{o1}{o2}", "xh", "c08", "arithmetic_chain", param={"o1": o1, "o2": o2}, timeout=T * 2,
+                                  bounds="head from 5 forms (1/x, -(1/x), abs(1/x), a host Decimal, (x)) x 6 x 6 x 6 operands: finite domain, indices symbolic",
+                                  desc=f"real eval of 'head {o1} b {o2} c' vs exact rationals rounded after EACH operation in operator-table order"))
     return {
         "obligations": obs,
         "explanation": "REDUCED SCOPE (libmpdec itself is not encodable): CrossHair-driven routing obligations with a Decimal recording stub "
